@@ -48,6 +48,27 @@ def _mk(n, edges, nx=False):
         G.add_edges_from([tuple(e) for e in edges])
         return G
     from cnfgen.graphs import Graph
+    # "for every input graph" includes graphs reached through any history of updates: the construction varies
+    # deterministically with the case (direct / vertices added afterwards / reversed orientation plus a spare edge
+    # that is added and removed again); the abstract graph is always (n, edges)
+    mode = (n + 2 * len(edges)) % 3
+    if mode == 1 and n >= 2:
+        G = Graph(n - 2)
+        G.update_vertex_number(n)
+        for u, v in edges:
+            G.add_edge(u, v)
+        return G
+    if mode == 2 and n >= 2:
+        G = Graph(n)
+        eset = {tuple(sorted(e)) for e in edges}
+        spare = next(((a, b) for a in range(1, n + 1) for b in range(a + 1, n + 1) if (a, b) not in eset), None)
+        if spare:
+            G.add_edge(*spare)
+        for u, v in reversed([tuple(e) for e in edges]):
+            G.add_edge(v, u)
+        if spare:
+            G.remove_edge(spare[1], spare[0])
+        return G
     G = Graph(n)
     for u, v in edges:
         G.add_edge(u, v)
